@@ -13,7 +13,7 @@ NOT_DECIDED = ["timing of chunks relative to the network timeout (see C08)"]
 
 
 def tasks(tier):
-    return [recvpath.RecvTask(), recvpath.ReadPduTask()]
+    return [recvpath.RecvTask(), recvpath.ReadPduTask(), recvpath.ReadyTask()]
 
 
 def replay(rec):
